@@ -6,6 +6,7 @@ import (
 	"fmt"
 	"reflect"
 	"time"
+	"verif/ref/reflectval"
 
 	"verif/bridge/chunk"
 	"verif/cells"
@@ -327,9 +328,12 @@ func one(e env, cell cells.Cell, ent reg.Entry, f *schema.File, t *schema.Type, 
 			if lerr != nil {
 				viol("shape:"+path, lerr.Error())
 			} else if k := e.P.Key(f, t, got); k != want {
-				viol("value:"+path, fmt.Sprintf("decoded %.250s, the evolved-decode rule gives %.250s", k, want))
+				viol("value:"+path, fmt.Sprintf("decoded %.250s, the evolved-decode rule gives %.250s (every previously decoded value of this type was overwritten in place after it had been judged)", k, want))
 			} else {
 				w.Outcome("decoded-as-expected")
+				// overwrite the decoded value in place: whatever it shares with the declared
+				// defaults (or with a later decode) shows up in the decodes that follow
+				reflectval.Scramble(rv)
 			}
 		default:
 			w.Outcome("rejected-as-expected")
